@@ -149,7 +149,16 @@ def make_estimator(rng, run, vd, ncomp):
         if kind == "trend":
             return vd.Trend(degree=int(rng.integers(1, 4))), "Trend"
         if kind == "spline":
-            return vd.Spline(damping=float(10 ** rng.uniform(-4, 0))), "Spline"
+            if rng.random() < 0.3:
+                value = [1, 2, 10][int(rng.integers(0, 3))]
+                damping = [int, np.int64, float][int(rng.integers(0, 3))](value)
+                run.count("class:spline_damping_spelling:integral_as_" + type(damping).__name__)
+            else:
+                damping = float(10 ** rng.uniform(-4, 0))
+                if rng.random() < 0.3:
+                    damping = np.float64(damping)
+                run.count("class:spline_damping_spelling:" + type(damping).__name__)
+            return vd.Spline(damping=damping), "Spline"
         if kind == "knn1":
             return vd.KNeighbors(k=1), "KNeighbors(k=1)"
         if kind == "knn3":
@@ -188,7 +197,7 @@ def make_cv(rng, run, vd, ds, allow_default=True, max_splits=6):
             if not allow_default or rng.random() < 0.5:
                 continue
             run.count("class:cv:default(None)")
-            return (lambda: None), "None", 5
+            return (lambda how=None: None), "None", 5
         if kind in ("kfold", "thin"):
             k, shuffle = int(rng.integers(2, max_splits + 1)), bool(rng.random() < 0.7)
             make = lambda k=k, shuffle=shuffle: KFold(n_splits=k, shuffle=shuffle, random_state=seed if shuffle else None)  # noqa: E731
@@ -225,16 +234,54 @@ def make_cv(rng, run, vd, ds, allow_default=True, max_splits=6):
         if len(splits) < 2 or any(len(te) < 3 or len(tr) < 12 for tr, te in splits):
             continue
         run.count("class:cv:" + label.split("(")[0])
-        return (lambda make=make, label=label, thin=thin: R.RecordingCV(make(), label, thin, seed)), label, len(splits)
+        hows = ["proxy", "proxy", "proxy_list"] + ([] if thin else ["bare"])
+        default_how = str(rng.choice(hows))
+
+        def factory(how=None, make=make, label=label, thin=thin, default_how=default_how, hows=tuple(hows)):
+            """how: proxy (recording, split is a generator) | proxy_list (recording, split returns a list) | bare (the instance itself)
+            | other (any spelling different from the default one)."""
+            if how is None:
+                how = default_how
+            elif how == "other":
+                how = [h for h in ("proxy", "proxy_list", "bare") if h != default_how and h in hows][0]
+            run.count("class:cv_spelling:" + how)
+            if how == "bare":
+                return make()
+            return R.RecordingCV(make(), label, thin, seed, as_list=(how == "proxy_list"))
+
+        return factory, label, len(splits)
     k = 4
     run.count("class:cv:KFold")
-    return (lambda: R.RecordingCV(KFold(n_splits=k, shuffle=True, random_state=1), "KFold(4)")), "KFold(4)", k
+    return (lambda how=None: R.RecordingCV(KFold(n_splits=k, shuffle=True, random_state=1), "KFold(4)")), "KFold(4)", k
 
 
-def pick_scoring(rng, run):
-    name = SCORINGS[int(rng.integers(0, len(SCORINGS)))]
-    run.count("class:scoring:" + str(name))
-    return R.HarnessScorer() if name == "callable" else name
+SPELLINGS = ("string", "get_scorer", "make_scorer", "plain_callable")
+
+
+def pick_scoring(rng, run, name=None, avoid=None):
+    """A metric (None = default R2) in one of its equivalent spellings: string, scorer object, plain callable."""
+    if name is None:
+        name = SCORINGS[int(rng.integers(0, len(SCORINGS)))]
+        run.count("class:scoring:" + str(name))
+    if name == "callable":
+        return R.HarnessScorer()
+    metric = "r2" if name is None else name
+    options = [sp for sp in SPELLINGS + (("none",) if metric == "r2" else ()) if sp != avoid]
+    spelling = "none" if (name is None and avoid is None) else str(rng.choice(options))
+    run.count("class:scoring_spelling:" + spelling)
+    return R.spell_scoring(metric, spelling)
+
+
+def spelling_of(scoring):
+    if scoring is None:
+        return "none"
+    if isinstance(scoring, str):
+        return "string"
+    if isinstance(scoring, R.PlainCallable):
+        return "plain_callable"
+    if isinstance(scoring, R.HarnessScorer):
+        return "harness_callable"
+    return "get_scorer"  # a scikit-learn scorer object (get_scorer and make_scorer build the same kind of object)
 
 
 # --------------------------------------------------------------------------
@@ -346,6 +393,29 @@ def case_cv(run, rng, vd, schedules=None, client=None):
                                        "test_sets": [np.sort(s[1]) for s in st.splits], "scores": vals,
                                        "reference": [st.ref.score(tr, te)["value"] for tr, te in st.splits],
                                        "tolerance": [st.ref.score(tr, te)["tol"] for tr, te in st.splits]})
+        # the same request in other, equivalent spellings must give the same numbers
+        if client is None and cv_label != "None":
+            metric = R.scoring_name(scoring)
+            alt_scoring = scoring if metric == "callable" else pick_scoring(rng, run, name=metric, avoid=spelling_of(scoring))
+            alt_weights = weights
+            if weights is None and rng.random() < 0.7:
+                alt_weights = (None,) * len(ds.data)
+                run.count("class:weights_spelling:tuple_of_None")
+            alt = vd.cross_val_score(est, coords, data, weights=alt_weights, cv=factory("other"), scoring=alt_scoring)
+            at = last_ticket(alt)
+            with M.GL:
+                if at is None or at.serial_values is None or not same_splits(at.splits, st.splits):
+                    run.count("spelling_case_not_comparable")
+                else:
+                    run.evaluated("equivalent_spellings_agree")
+                    tols = [st.ref.score(tr, te) for tr, te in st.splits]
+                    worst = [k for k, r in enumerate(tols) if r["skip"] is None and not abs(at.serial_values[k] - vals[k]) <= r["tol"]]
+                    if worst:
+                        run.violation("equivalent_spellings_agree",
+                                      "cross_val_score gives %r for scoring=%r, cv=%r, weights=%s but %r for the equivalent scoring=%r, cv=%r, weights=%s"
+                                      % (vals[worst[0]], scoring, cv1, "None" if weights is None else "arrays", at.serial_values[worst[0]], alt_scoring,
+                                         at and "other spelling", "tuple of None" if alt_weights is not weights else "same"),
+                                      {"first": vals, "second": at.serial_values, "estimator": st.est_key, "cv": cv_label}, key="spellings")
         if client is not None:
             cv3 = factory()
             futures = vd.cross_val_score(est, coords, data, weights=weights, cv=cv3, scoring=scoring, client=client)
@@ -462,13 +532,47 @@ def case_score(run, rng, vd):
         M.flush_local(run)
 
 
+def respell_tts(kwargs, rng, run):
+    """The same train_test_split request in other spellings: numpy scalars, list / tuple / ndarray, int <-> float where the value is integral."""
+    out = dict(kwargs)
+    ts = kwargs.get("test_size")
+    if ts is not None:
+        if isinstance(ts, (int, np.integer)):
+            out["test_size"] = np.int64(ts) if type(ts) is int else int(ts)
+        else:
+            out["test_size"] = np.float64(ts) if type(ts) is float else float(ts)
+        run.count("class:tts_spelling:test_size:" + type(out["test_size"]).__name__)
+    if kwargs.get("shape") is not None:
+        kind = str(rng.choice(["list", "ndarray", "tuple_of_numpy.int64"]))
+        shape = [int(v) for v in kwargs["shape"]]
+        out["shape"] = shape if kind == "list" else (np.array(shape) if kind == "ndarray" else tuple(np.int64(v) for v in shape))
+        run.count("class:tts_spelling:shape:" + kind)
+        run.count("class:tts_spelling:shape")
+    sp = kwargs.get("spacing")
+    if sp is not None:
+        if np.ndim(sp) == 0:
+            out["spacing"] = float(sp) if type(sp) is not float else (np.float64(sp) if rng.random() < 0.5 else (sp, sp))
+            kind = type(out["spacing"]).__name__
+        else:
+            kind = str(rng.choice(["list", "ndarray", "tuple_of_numpy.float64"]))
+            vals = [float(v) for v in sp]
+            out["spacing"] = vals if kind == "list" else (np.array(vals) if kind == "ndarray" else tuple(np.float64(v) for v in vals))
+        run.count("class:tts_spelling:spacing:" + kind)
+        run.count("class:tts_spelling:spacing")
+    return out
+
+
 def case_tts(run, rng, vd):
     for _ in range(6):
         blocked = bool(rng.random() < 0.5)
         ds, coords, data, weights, info = make_dataset(rng, run)
         kwargs = {"random_state": int(rng.integers(0, 2 ** 31 - 1))}
-        if rng.random() < 0.7:
+        pick = rng.random()
+        if pick < 0.45:
             kwargs["test_size"] = float(rng.uniform(0.15, 0.5))
+        elif pick < 0.75 and not blocked:
+            kwargs["test_size"] = int(rng.integers(4, ds.size // 2))  # a count of rows
+            run.count("class:tts:test_size_as_count")
         if blocked:
             if rng.random() < 0.5:
                 kwargs["shape"] = (int(rng.integers(2, 6)), int(rng.integers(2, 6)))
@@ -476,6 +580,9 @@ def case_tts(run, rng, vd):
                 ext_e, ext_n = np.ptp(ds.coordinates[0]), np.ptp(ds.coordinates[1])
                 if rng.random() < 0.5:
                     kwargs["spacing"] = float(min(ext_e, ext_n) / rng.uniform(1.6, 5.4))
+                    if kwargs["spacing"] >= 3 and rng.random() < 0.6:
+                        kwargs["spacing"] = int(kwargs["spacing"])  # an integral block size, spelled as int
+                        run.count("class:tts:spacing_as_int")
                 else:
                     kwargs["spacing"] = (float(ext_n / rng.uniform(1.6, 5.4)), float(ext_e / rng.uniform(1.6, 5.4)))
             kwargs.setdefault("test_size", 0.3)
@@ -494,21 +601,75 @@ def case_tts(run, rng, vd):
                 run.count("refused:train_test_split:" + str(exc)[:40])
                 continue
             raise
-    run.sample("train_test_split", {"dataset": info, "kwargs": kwargs, "train_rows": np.sort(ds.rows(train[0])) if ds.rows(train[0]) is not None else None,
+        # the same request in an equivalent spelling (and weights=None as a tuple of None) must give the same split
+        other = respell_tts(kwargs, rng, run)
+        alt_weights = weights
+        if weights is None and rng.random() < 0.5:
+            alt_weights = (None,) * len(ds.data)
+            run.count("class:weights_spelling:tuple_of_None")
+        with warnings.catch_warnings():
+            warnings.simplefilter("ignore")
+            train2, test2 = vd.train_test_split(coords, data, alt_weights, **other)
+        with M.GL:
+            run.evaluated("tts_equivalent_spellings_agree")
+            rows = [ds.rows(part[0]) for part in (train, test, train2, test2)]
+            if any(r is None for r in rows) or not (np.array_equal(rows[0], rows[2]) and np.array_equal(rows[1], rows[3])):
+                run.violation("tts_equivalent_spellings_agree", "train_test_split(%r) and train_test_split(%r) return different splits"
+                              % ({k: v for k, v in kwargs.items()}, {k: v for k, v in other.items()}),
+                              {"coordinates": list(ds.coordinates), "first_test": rows[1], "second_test": rows[3]}, key="tts-spellings")
+    run.sample("train_test_split", {"dataset": info, "kwargs": kwargs, "respelled": {k: repr(v) for k, v in other.items()},
+                                    "train_rows": np.sort(ds.rows(train[0])) if ds.rows(train[0]) is not None else None,
                                     "test_rows": np.sort(ds.rows(test[0])) if ds.rows(test[0]) is not None else None})
+
+
+def spell_numbers(values, rng, run, what, container=None, scalar=None):
+    """The same numbers in another container (tuple / list / ndarray) and scalar type (float, numpy.float64, and for integral values int / numpy.int64)."""
+    values = list(values)
+    has_none = any(v is None for v in values)
+    integral = all(v is not None and float(v) == int(v) for v in values)
+    if container is None:
+        container = str(rng.choice(["list", "tuple"] + ([] if has_none else ["ndarray"])))
+    if scalar is None:
+        scalar = str(rng.choice(["float", "numpy.float64"] + (["int", "numpy.int64"] if integral else [])))
+    if scalar in ("int", "numpy.int64") and not integral:
+        raise AssertionError("harness: integer spelling requested for non-integral values %r" % (values,))
+    conv = {"float": float, "numpy.float64": np.float64, "int": int, "numpy.int64": np.int64}[scalar]
+    out = [None if v is None else conv(v) for v in values]
+    run.count("class:%s_container:%s" % (what, container))
+    run.count("class:%s_scalar:%s" % (what, scalar))
+    if container == "tuple":
+        return tuple(out)
+    if container == "ndarray":
+        return np.array(out)
+    return out
+
+
+def coarse_forces(rng, ds, as_2d=False):
+    """A coarse regular grid of point forces over the data region: fewer forces than data points."""
+    ny, nx = int(rng.integers(3, 6)), int(rng.integers(3, 6))
+    fe, fn = np.meshgrid(np.linspace(ds.coordinates[0].min(), ds.coordinates[0].max(), nx),
+                         np.linspace(ds.coordinates[1].min(), ds.coordinates[1].max(), ny))
+    return (fe, fn) if as_2d else (fe.ravel(), fn.ravel())
 
 
 def case_splinecv(run, rng, vd, client=None, index=None):
     import dask
 
-    ds, coords, data, weights, info = make_dataset(rng, run, ncomp=1, nmax=60 if run.tier == "quick" else 80)
+    # option combinations forced in rotation (the random draws below add more): 0 scorer + weights, 1 two-dimensional grid,
+    # 2 integral dampings spelled as int / numpy.int64, 3 coarse grid of forces + engine="numpy"
+    forced = None if index is None else index % 4
+    ds, coords, data, weights, info = make_dataset(rng, run, ncomp=1, nmax=60 if run.tier == "quick" else 80,
+                                                   weighted=True if forced == 0 else None)
     S.register(ds)
     n_damp = int(rng.integers(1, 5))
     dampings = sorted({float(10 ** rng.uniform(-4, 0.5)) for _ in range(n_damp)})
     if rng.random() < 0.15:
         dampings = [None] + dampings
-    if rng.random() < 0.15:
+    if rng.random() < 0.15 and forced != 2:
         dampings = [1e-10, 1e-5, 1e-1]  # the documented default grid
+    elif rng.random() < 0.3 or forced == 2:
+        dampings = [[1, 10], [10, 1, 2], [1, 100], [2, 20]][int(rng.integers(0, 4))]  # integral values: spelled as int / numpy.int64 / float below
+        run.count("class:splinecv:integral_dampings")
     if rng.random() < 0.5:
         dampings = dampings[::-1] if rng.random() < 0.5 else [dampings[i] for i in rng.permutation(len(dampings))]
     ext = max(np.ptp(ds.coordinates[0]), np.ptp(ds.coordinates[1]))
@@ -523,16 +684,34 @@ def case_splinecv(run, rng, vd, client=None, index=None):
     if mindists is not None and len(mindists) > 1 and len(dampings) > 1:
         run.count("class:splinecv:two_dimensional_grid")
     force_coords = None
-    if rng.random() < 0.2:
-        k = int(rng.integers(12, 25))
-        pick = rng.choice(ds.size, k, replace=False)
-        force_coords = (ds.coordinates[0][pick] + 0.01 * ext, ds.coordinates[1][pick] - 0.01 * ext)
+    if rng.random() < 0.35 or forced == 3:
+        if rng.random() < 0.7 or forced == 3:
+            force_coords = coarse_forces(rng, ds, as_2d=bool(rng.random() < 0.4))
+            run.count("class:splinecv:force_coords:coarse_grid")
+        else:
+            k = int(rng.integers(12, 25))
+            pick = rng.choice(ds.size, k, replace=False)
+            force_coords = (ds.coordinates[0][pick] + 0.01 * ext, ds.coordinates[1][pick] - 0.01 * ext)
+            run.count("class:splinecv:force_coords:scattered")
         run.count("class:splinecv:force_coords")
+    engine = "numpy" if rng.random() < 0.25 or forced == 3 else "auto"
+    run.count("class:splinecv:engine:" + engine)
     scoring = pick_scoring(rng, run)
+    while forced == 0 and scoring is None:
+        scoring = pick_scoring(rng, run)
+    if scoring is not None and weights is not None:
+        run.count("class:splinecv:scoring_with_weights")
+    if mindists is not None and len(mindists) > 1:
+        run.count("class:splinecv:several_mindists")
+    plain_dampings, plain_mindists = dampings, mindists
+    dampings = spell_numbers(plain_dampings, rng, run, "dampings", scalar=None if forced != 2 else ("int" if (index // 4) % 2 == 0 else "numpy.int64"))
+    if any(isinstance(d, (int, np.integer)) and not isinstance(d, bool) for d in dampings):
+        run.count("class:splinecv:dampings_of_integer_type")
+    mindists = None if plain_mindists is None else spell_numbers(plain_mindists, rng, run, "mindists")
     factory, cv_label, n_splits = make_cv(rng, run, vd, ds, allow_default=client is None, max_splits=5)
     n_cand = len(dampings) * (1 if mindists is None else len(mindists))
     run.count("class:splinecv:candidates:%d" % n_cand)
-    common = {"dampings": dampings, "mindists": mindists, "force_coords": force_coords}
+    common = {"dampings": dampings, "mindists": mindists, "force_coords": force_coords, "engine": engine}
     with warnings.catch_warnings():
         warnings.simplefilter("ignore")
         if client is not None:
@@ -548,7 +727,12 @@ def case_splinecv(run, rng, vd, client=None, index=None):
                                 "scores_": serial_scores, "selected": [model.mindist_, model.damping_]})
         if cv_label == "None":
             return
-        lazy_model = vd.SplineCV(cv=factory(), scoring=scoring, delayed=True, **common)
+        # the delayed twin is configured with equivalent spellings: other containers / scalar types, delayed as True | numpy.True_ | 1
+        truthy = [True, np.True_, 1][int(rng.integers(0, 3))]
+        run.count("class:delayed_spelling:" + type(truthy).__name__)
+        common = dict(common, dampings=spell_numbers(plain_dampings, rng, run, "dampings"),
+                      mindists=None if plain_mindists is None else spell_numbers(plain_mindists, rng, run, "mindists"))
+        lazy_model = vd.SplineCV(cv=factory(), scoring=scoring, delayed=truthy, **common)
         S.last_splinecv = None
         lazy_model.fit(coords, data, weights)
         state = S.last_splinecv
@@ -630,7 +814,9 @@ def case_splinecv_history(run, rng, vd, index=0):
         dampings = sorted({float(10 ** rng.uniform(-4, 0.5)) for _ in range(int(rng.integers(1, 4)))})
         if rng.random() < 0.5:
             dampings = dampings[::-1]
-        return dampings
+        if rng.random() < 0.25:
+            dampings = [[1, 10], [10, 2], [100, 1]][int(rng.integers(0, 3))]
+        return spell_numbers(dampings, rng, run, "dampings")
 
     def some_mindists(ext):
         return [float(ext * 10 ** rng.uniform(-3, -1)), float(ext * 10 ** rng.uniform(-6, -3))][: int(rng.integers(1, 3))]
@@ -654,7 +840,7 @@ def case_splinecv_history(run, rng, vd, index=0):
             for name in names:
                 if name == "dampings":
                     value = grid()
-                    while value == state["dampings"]:
+                    while [float(v) for v in value] == [float(v) for v in state["dampings"]]:
                         value = grid()
                 elif name == "mindists":
                     value = some_mindists(ext)
